@@ -283,11 +283,16 @@ pub enum Step {
     BogusBlockFromPeer,
     Disconnect,
     StunPeer,
+    /// the consensus thread's requests to the router, which ordinary syncing rarely produces: "ask
+    /// this peer for its chain again" (after a block too far from ours) and "fetch this block from
+    /// anybody"
+    ConsensusAsksForChain,
+    ConsensusAsksForBlock,
 }
-pub const ALL_STEPS: [Step; 23] = [
+pub const ALL_STEPS: [Step; 25] = [
     Step::Connect, Step::DeliverToNode, Step::DeliverToPeer, Step::CompleteFetch, Step::FailFetch, Step::PopVerification, Step::PopConsensus, Step::PopRouting,
     Step::PopMining, Step::RoutingTimer, Step::ConsensusTimer, Step::MiningTimer, Step::TxFromPeer, Step::Bundle, Step::LocalGoldenTicket, Step::KeyListFromPeer,
-    Step::ServicesFromPeer, Step::GhostRequestFromPeer, Step::ChainRequestFromPeer, Step::ApiFromPeer, Step::BogusBlockFromPeer, Step::Disconnect, Step::StunPeer,
+    Step::ServicesFromPeer, Step::GhostRequestFromPeer, Step::ChainRequestFromPeer, Step::ApiFromPeer, Step::BogusBlockFromPeer, Step::Disconnect, Step::StunPeer, Step::ConsensusAsksForChain, Step::ConsensusAsksForBlock,
 ];
 
 #[derive(Debug, Clone, Serialize, Deserialize, PartialEq, Eq, Hash)]
@@ -309,7 +314,7 @@ pub fn canonical() -> Vec<Step> {
         v.extend([DeliverToNode, CompleteFetch, PopVerification, PopConsensus, PopRouting, PopMining]);
     }
     v.extend([RoutingTimer, TxFromPeer, PopVerification, PopConsensus, LocalGoldenTicket, PopConsensus, ConsensusTimer, Bundle, PopRouting, PopMining, MiningTimer]);
-    v.extend([KeyListFromPeer, ServicesFromPeer, GhostRequestFromPeer, ChainRequestFromPeer, ApiFromPeer, BogusBlockFromPeer, PopVerification, PopConsensus, FailFetch, StunPeer, Disconnect, RoutingTimer]);
+    v.extend([KeyListFromPeer, ServicesFromPeer, GhostRequestFromPeer, ChainRequestFromPeer, ApiFromPeer, BogusBlockFromPeer, PopVerification, PopConsensus, FailFetch, ConsensusAsksForChain, ConsensusAsksForBlock, StunPeer, Disconnect, RoutingTimer]);
     v
 }
 
@@ -484,6 +489,12 @@ pub fn run_pass(steps: &[Step], l: usize, write: bool, pre: &Built, rec: &mut Ve
             }
             Step::Disconnect => {
                 pr!("routing.net.PeerDisconnected", n.rt.process_network_event(NetworkEvent::PeerDisconnected { peer_index: 1, disconnect_type: PeerDisconnectType::InternalDisconnect }));
+            }
+            Step::ConsensusAsksForChain => {
+                pr!("routing.BlockchainRequest", n.rt.process_event(RoutingEvent::BlockchainRequest(1)));
+            }
+            Step::ConsensusAsksForBlock => {
+                pr!("routing.BlockFetchRequest", n.rt.process_event(RoutingEvent::BlockFetchRequest(0, [9; 32], 9)));
             }
             Step::StunPeer => {
                 pr!("routing.net.AddStunPeer", n.rt.process_network_event(NetworkEvent::AddStunPeer { peer_index: 55, public_key: key(6).0 }));
